@@ -1,7 +1,39 @@
 (* C14 — Resolver: first registered definition wins, deterministically.
    Statements only; proofs are in Proofs/ResolverProofs.v and Proofs/C14Proofs.v. *)
-From Errdef Require Import Base.Str Base.Outcome Model.Value Model.Resolver
+From Errdef Require Import Base.Str Base.Outcome Model.Value Model.Resolver Model.ResolverGen
   Proofs.ResolverProofs Check.C14 Proofs.C14Proofs.
+
+(* ---- the model is regenerated from the source ------------------------------------------ *)
+
+(* The functions the check evaluates (Model/ResolverGen.v) are interpreters of Gen/ResolverSrc.v, which srcgen
+   extracts from resolver/*.go on every run: the predicate of slices.CompactFunc in New, first-or-last-wins in
+   byKind, the map lookup of ResolveKind, how ResolveField reaches ResolveFieldFunc (with or without unwrapping a
+   FieldValue), the loop of ResolveFieldFunc, and for every DefaultResolver method which method of the wrapped
+   resolver it calls and what it returns on a miss.  On the current source they coincide, for every input, with
+   the transcription Model/Resolver.v about which the theorems below are stated; an edit of any of these
+   functions makes this theorem (or the shape theorem) fail while the interpreters keep following the code
+   wherever the new shape is one they know (compaction by kind, last-wins, no unwrapping). *)
+Theorem C14_model_is_source :
+  (forall defs, wf_defs defs -> g_new_resolver defs = new_resolver defs) /\
+  (forall r k, g_resolve_kind r k = resolve_kind r k) /\
+  (forall r key eq, g_resolve_field_func r key eq = resolve_field_func (r_defs r) key eq) /\
+  (forall r key want, g_resolve_field r key want = resolve_field r key want) /\
+  (forall r d k, g_resolve_kind_or_default r d k = resolve_kind_or_default r d k) /\
+  (forall r d key want, g_resolve_field_or_default r d key want = resolve_field_or_default r d key want) /\
+  (forall r d key eq, g_resolve_field_func_or_default r d key eq
+                      = or_default_out d (resolve_field_func (r_defs r) key eq)).
+Proof.
+  exact (conj g_new_resolver_ref (conj g_resolve_kind_ref (conj g_resolve_field_func_ref (conj g_resolve_field_ref
+        (conj g_resolve_kind_or_default_ref (conj g_resolve_field_or_default_ref g_resolve_field_func_or_default_ref)))))).
+Qed.
+Print Assumptions C14_model_is_source.
+
+(* every function of the package had a shape the translator knows; New works on a clone of its argument;
+   WithDefault wires the wrapped resolver and the default; DefaultResolver's ResolveKind / ResolveField /
+   ResolveFieldFunc hand their arguments to the same method of the wrapped resolver; Default returns the default *)
+Theorem C14_source_shape_recognised : source_shape_ok = true.
+Proof. exact source_shape. Qed.
+Print Assumptions C14_source_shape_recognised.
 
 (* ResolveKind(k) = the first definition in registration order whose kind is k,
    for every registration list (duplicates, equal kinds, any order). *)
